@@ -1,12 +1,12 @@
 (* Engine 1: scripts of world operations over two worlds; decoder, interpreter and observation
    encoders.  The Rust harness (harness/src/world_engine.rs) implements the same protocol. *)
 From Coq Require Import List NArith ZArith Bool.
-From HecsV Require Import Base.ListN Model.EntityBits Model.Types Model.Entities Model.World.
+From HecsV Require Import Base.ListN Model.EntityBits Model.Types Model.Entities Model.World Model.Query.
 Import ListNotations.
 Open Scope N_scope.
 
 Record wslot := { ws_world : world; ws_state : N }.   (* 0 live, 1 poisoned by a panic, 2 dropped *)
-Record est := { e_u : universe; e_ws : list wslot; e_handles : list entity }.
+Record est := { e_u : universe; e_ws : list wslot; e_handles : list entity; e_prep : list (N * prepared) }.
 
 (* table entry recorded when an operation that should have produced a handle failed *)
 Definition NOHANDLE : entity := {| e_id := 200; e_gen := 4294967295 |}.
@@ -120,6 +120,78 @@ Definition enc_probe_handle (u : universe) (w : world) (h : entity) : list N :=
                            end) (seqN 0 (lenN u)))
   ++ [if w_view_unit_contains w h then 1 else 0].
 
+(* ---- queries (opcode 30) ---- *)
+Fixpoint dec_query (fuel : nat) (l : list N) : query * list N :=
+  match fuel with
+  | O => (QTup [], l)
+  | S f =>
+      match l with
+      | 1 :: t :: r => (QRead t, r)
+      | 2 :: t :: r => (QWrite t, r)
+      | 3 :: r => let '(q, r1) := dec_query f r in (QOpt q, r1)
+      | 4 :: r => let '(a, r1) := dec_query f r in let '(b, r2) := dec_query f r1 in (QOr a b, r2)
+      | 5 :: r => let '(a, r1) := dec_query f r in let '(b, r2) := dec_query f r1 in (QWith a b, r2)
+      | 6 :: r => let '(a, r1) := dec_query f r in let '(b, r2) := dec_query f r1 in (QWithout a b, r2)
+      | 7 :: r => let '(q, r1) := dec_query f r in (QSat q, r1)
+      | 8 :: n :: r =>
+          let fix many (fuel2 : nat) (n : N) (l : list N) : list query * list N :=
+            match fuel2 with
+            | O => ([], l)
+            | S f2 => if N.eqb n 0 then ([], l) else
+                      let '(q, r1) := dec_query f l in
+                      let '(qs, r2) := many f2 (N.pred n) r1 in (q :: qs, r2)
+            end in
+          let '(qs, r1) := many (S (length r)) n r in (QTup qs, r1)
+      | _ => (QTup [], [])
+      end
+  end.
+
+Fixpoint enc_item (u : universe) (i : item) : list N :=
+  match i with
+  | IVal t v => [1; t; snd (zval u (t, v))]
+  | INone => [2]
+  | ISome x => 3 :: enc_item u x
+  | ILeft x => 4 :: enc_item u x
+  | IRight x => 5 :: enc_item u x
+  | IBoth x y => 6 :: enc_item u x ++ enc_item u y
+  | IBool b => [7; if b then 1 else 0]
+  | ITup xs => 8 :: lenN xs :: (fix go (l : list item) := match l with [] => [] | x :: r => enc_item u x ++ go r end) xs
+  | IBad => [99]
+  end.
+
+Definition enc_entries (u : universe) (l : list (entity * item)) : list N :=
+  lenN l :: concat (map (fun p => enc_entity (fst p) :: enc_item u (snd p)) l).
+
+(* the handles random-access paths are probed with *)
+Definition sel_handles (l : list entity) : list entity :=
+  if N.leb (lenN l) 16 then l else takeN 4 l ++ dropN (lenN l - 12) l.
+
+Definition enc_opt_item (u : universe) (o : option item) : list N :=
+  match o with None => [0] | Some i => 1 :: enc_item u i end.
+
+Fixpoint assoc_prep (k : N) (m : list (N * prepared)) : prepared :=
+  match m with [] => prepared_new | (k', p) :: r => if N.eqb k k' then p else assoc_prep k r end.
+
+Definition run_query (st : est) (wi : N) (w : world) (qidx path arg : N) (q : query) : est * list N :=
+  let u := e_u st in
+  let hs := sel_handles (e_handles st) in
+  match path with
+  | 0 | 1 => (st, query_len w q :: enc_entries u (query_iter w q))
+  | 2 => (st, enc_entries u (query_iter w q) ++ concat (map (fun h => enc_opt_item u (view_get w q h)) hs))
+  | 3 => let bs := query_batches w q arg in
+         (st, lenN bs :: concat (map (enc_entries u) bs))
+  | 4 | 5 | 6 =>
+      let p := pq_refresh (assoc_prep qidx (e_prep st)) (wi + 1) w q in
+      let st' := {| e_u := e_u st; e_ws := e_ws st; e_handles := e_handles st; e_prep := (qidx, p) :: e_prep st |} in
+      if N.eqb path 6 then (st', concat (map (fun h => enc_opt_item u (pq_view_get p w q h)) hs))
+      else (st', pq_len p w :: enc_entries u (pq_iter p w q))
+  | 7 => (st, concat (map (fun h => match query_one w q h with
+                                    | Q1NoSuch => [0] | Q1Unsat => [1] | Q1Item i => 2 :: enc_item u i
+                                    end) hs))
+  | _ => (st, map (fun h => match satisfies w q h with None => 0 | Some b => if b then 2 else 1 end) hs
+              ++ map (fun a => match access (a_types a) q with None => 0 | Some x => x + 1 end) (w_archs w))
+  end.
+
 (* ---- the interpreter ---- *)
 Definition get_w (st : est) (i : N) : option world :=
   match nthN (e_ws st) i with
@@ -128,10 +200,10 @@ Definition get_w (st : est) (i : N) : option world :=
   end.
 
 Definition set_w (st : est) (i : N) (w : world) (state : N) : est :=
-  {| e_u := e_u st; e_ws := updN (e_ws st) i {| ws_world := w; ws_state := state |}; e_handles := e_handles st |}.
+  {| e_u := e_u st; e_ws := updN (e_ws st) i {| ws_world := w; ws_state := state |}; e_handles := e_handles st; e_prep := e_prep st |}.
 
 Definition add_handles (st : est) (hs : list entity) : est :=
-  {| e_u := e_u st; e_ws := e_ws st; e_handles := e_handles st ++ hs |}.
+  {| e_u := e_u st; e_ws := e_ws st; e_handles := e_handles st ++ hs; e_prep := e_prep st |}.
 
 Definition out_ok (u : universe) (ret : list N) (dropped : list (tid * val)) : list N :=
   [0; lenN ret] ++ ret ++ enc_vals u dropped.
@@ -163,6 +235,18 @@ Definition exec_op (st : est) (opc : N) (l : list N) : est * list N * list N :=
                     let '(w', d) := w_clear (ws_world s) in
                     (set_w st wi w' 2, args, out_ok u [] d)
         | None => (st, args, [8])
+        end
+    | 30 =>
+        match args with
+        | qidx :: path :: arg :: n :: r =>
+            let ast := takeN n r in
+            let rest := dropN n r in
+            let '(q, _) := dec_query (S (length ast)) ast in
+            match get_w st wi with
+            | None => (st, rest, [8])
+            | Some w => let '(st', obs) := run_query st wi w qidx path arg q in (st', rest, obs)
+            end
+        | _ => (st, [], [])
         end
     | _ =>
       match get_w st wi with
@@ -371,7 +455,7 @@ Definition run_world (args : list N) : list N :=
   | n :: r =>
       let '(u, script) := dec_universe (length r) n r in
       let st := {| e_u := u; e_ws := [{| ws_world := world_new; ws_state := 0 |}; {| ws_world := world_new; ws_state := 0 |}];
-                   e_handles := [] |} in
+                   e_handles := []; e_prep := [] |} in
       exec_script (length script) st script
   | [] => []
   end.
